@@ -73,7 +73,7 @@ def replay(scn):
         forms = [("list", "i"), ("tuple", "s"), ("dict", "i"), ("dict", "s"), ("list", "default"), ("dict+keys", "s"), ("dict+keys", "i")]
     else:
         forms = [("list", "name"), ("tuple", "pos"), ("list", "negpos")]
-    for lk in ("i", "s", "f@big"):
+    for lk in ("i", "s", "f@big", "u"):          # u: unsigned integer labels (uint16)
         # f@big: float labels around 1e6 spaced by 0.5 (equal only if exactly equal); 20200101-like magnitudes
         codec = A.LabelCodec(offset=(2000000 if lk == "f@big" else 0))
         for cont, kk in forms:
